@@ -1,5 +1,6 @@
 """Concrete predicates that decide whether a solver finding reproduces on the real crates.
 Each takes a Finding and returns (reproduced: bool|None, detail)."""
+import json
 from lib import run_replay
 
 
@@ -269,6 +270,45 @@ def recover_only_differs(f):
                 bad.append({'view': mi, 'RecoverAndVerify': a['masks'], 'RecoverOnly': b['masks']})
                 break
     return (len(bad) == len(outs)), bad[:1]
+
+
+def verifier_promise_guard(f):
+    """C07/C16 (Engine M counterexample): on the real crates the verifier's promise guard fires (its error text) exactly for promise >= 2^bits —
+    tried at the solver model's (bit length, promise) and at the boundary values of that bit length"""
+    c = f.cfg or {}
+    n, p = c.get('n'), c.get('p')
+    if n not in (1, 2, 4, 8, 16, 32, 64) or p is None:
+        return None, 'model bit length %s is not constructible' % n
+    top = (1 << 64) - 1
+    cands = sorted({p, min(top, (1 << n) - 1), min(top, 1 << n), top})
+    bad = []
+    for q in cands:
+        spec_err = n < 64 and q >= (1 << n)
+        o = run_replay({'scenario': 'batch', 'n': n, 'x': 1, 'members': [{'m': 1, 'cap': 1, 'tamper_statement': {'op': 'promise', 'j': 0, 'value': str(q)}}], 'actions': ['VerifyOnly']}, 1)
+        if 'crash' in o:
+            return True, o
+        res = (o.get('verify') or [{}])[0].get('result')
+        fired = 'exceeds bit vector capacity' in json.dumps(res)
+        if res == 'panic' or fired != spec_err:
+            bad.append({'bits': n, 'promise': q, 'guard_should_fire': spec_err, 'verifier': res})
+    return (len(bad) > 0), bad[:2]
+
+
+def round_count_sweep(f):
+    """C16 (Engine M counterexample in the round-count guard; a model with arbitrary usize values cannot be turned into a proof): sweep of the real
+    verifier over proofs with 0..70 folding rounds for two statement sizes — refused with an error unless 2^rounds == bits * aggregation, never a panic"""
+    bad = []
+    for (n, m) in ((2, 1), (4, 4)):
+        good = (n * m).bit_length() - 1
+        for r in list(range(1, 12)) + [20, 31, 32, 33, 40, 62, 63, 64, 65, 70]:
+            o = run_replay({'scenario': 'adversarial', 'n': n, 'x': 1, 'members': [{'m': m, 'cap': m, 'rounds': r}], 'actions': ['VerifyOnly', 'RecoverOnly']}, 1)
+            if 'crash' in o:
+                return True, o
+            for v in o.get('verify') or []:
+                res = v.get('result')
+                if res == 'panic' or (r != good and res == 'ok'):
+                    bad.append({'bits': n, 'aggregation': m, 'rounds': r, 'action': v.get('action'), 'verifier': res})
+    return (len(bad) > 0), bad[:2]
 
 
 def challenges_unchanged(f):
